@@ -74,6 +74,14 @@ func genImage(rng *Rand, w, h int, content, alpha int) (*image.NRGBA, bool) {
 				if x == w/2 && y == h/2 {
 					c.A = 128
 				}
+			case 4: // only the very last pixel
+				if x == w-1 && y == h-1 {
+					c.A = 200
+				}
+			case 5: // only the very first pixel
+				if x == 0 && y == 0 {
+					c.A = 0
+				}
 			}
 			if c.A != 255 {
 				transparent = true
@@ -309,7 +317,7 @@ func main() {
 			n, maxSide = 3000, 96
 		}
 		contents := []string{"gradient", "noise", "flat", "few-colours", "text"}
-		alphas := []string{"opaque", "binary", "graded", "one-pixel"}
+		alphas := []string{"opaque", "binary", "graded", "one-pixel", "last-pixel", "first-pixel"}
 		sizes := [][2]int{{1, 1}, {1, 7}, {9, 1}, {15, 17}, {16, 16}, {17, 33}, {32, 32}}
 		for i := 0; i < n; i++ {
 			rng := c.Rng.Fork()
@@ -318,7 +326,7 @@ func main() {
 				sz = [2]int{rng.Range(1, maxSide), rng.Range(1, maxSide)}
 			}
 			w, h := sz[0], sz[1]
-			content, alpha := i%5, (i/5)%4
+			content, alpha := i%5, (i/5)%6
 			im, transparent := genImage(rng, w, h, content, alpha)
 			o, meta := randOpts(rng, i)
 			cs := c02Case{w, h, contents[content], alphas[alpha], o, meta}
